@@ -3,8 +3,8 @@
     Congestion/Proofs*.v. The model (Congestion/Model.v) is tied to
     /repo/internal/congestion by the correspondence units "cubic" and "pacer". *)
 From Coq Require Import List ZArith Bool.
-From V Require Import Gen.Params Congestion.Model Congestion.ProofsCut Congestion.ProofsCubic Congestion.ProofsPacer Congestion.ProofsHystart.
-From V Require SentPH.Model SentPH.ProofsAckRules SentPH.ProofsScalars Congestion.ProofsHandler.
+From V Require Import Gen.Params Congestion.Model Congestion.ProofsCut Congestion.ProofsCubic Congestion.ProofsPacer Congestion.ProofsHystart Congestion.ProofsAudit.
+From V Require SentPH.Model SentPH.ProofsHist SentPH.ProofsBase SentPH.ProofsAckRules SentPH.ProofsScalars Congestion.ProofsHandler.
 Import ListNotations.
 Open Scope Z_scope.
 
@@ -303,8 +303,10 @@ Example C20_pacing_livelock_regression :
 Proof. exact pacing_livelock_regression. Qed.
 Print Assumptions C20_pacing_livelock_regression.
 
-(** The sender's pacer is the pacer model driven with the sender's bandwidth estimate,
-    which is always a uint64 value: the pacer theorems apply to every sender history. *)
+(** One step of the sender's pacer is one step of the pacer model, fed with the sender's bandwidth
+    estimate (always a uint64 value). That the pacer theorems' hypotheses (PInv, PT, pop_ok) hold
+    along sender histories is C20_sender_pacer_inv below (round 5); the pacer clause for the
+    sender's own pacer is C20_sender_pacer_bound_gated. *)
 Theorem C20_sender_pacer_step : forall s o,
   pc (step s o) =
   match o with
@@ -404,3 +406,94 @@ Example C20_trigger_sending_nonvacuous :
   pr_sent (trigger_sending 3 true [6;6] (-1)) = 1 /\ pr_deadline (trigger_sending 3 true [6;6] (-1)) = pg_deadlineSendImmediately.
 Proof. exact trigger_sending_example. Qed.
 Print Assumptions C20_trigger_sending_nonvacuous.
+
+(** ---- Round 5 (audit) ---- *)
+
+(** (e) lifted to the sender: in every history from (new)CubicSender with a datagram size in (0, 2^30],
+    send times in (0, 2^62) ns, sizes >= 0 and MTU updates in (0, 2^30] ([op_rng]), the sender's pacer
+    satisfies the hypotheses PInv / PT of the pacer theorems. *)
+Theorem C20_sender_pacer_inv : forall m r icw imax srtt0 ops, 0 < m <= 2^30 -> Forall op_rng ops ->
+  let s := run (new_sender_w m r icw imax srtt0) ops in PInv (pc s) /\ PT (pc s).
+Proof. exact sender_pacer_inv. Qed.
+Print Assumptions C20_sender_pacer_inv.
+
+(** (e) for bytes really SENT: the sizes of the sends gated by HasPacingBudget (Budget >= one datagram)
+    and no larger than a datagram sum, over any interval starting with a send and from any pacer state,
+    to at most one burst + the credits. Ungated sends (PTO probes, ACK-only packets: SendMode releases
+    them without consulting the pacer) are the exception the property allows; they are not counted. *)
+Theorem C20_pacer_bound_gated : forall p t size bw r, PInv p -> PT p -> pop_ok (PSent t size bw) -> Forall pop_ok r ->
+  sum_gated p (PSent t size bw :: r) <= max_burst p bw + sum_credit (pstep p (PSent t size bw)) r.
+Proof. exact pacer_bound_gated. Qed.
+Print Assumptions C20_pacer_bound_gated.
+
+Theorem C20_gated_send_is_authorised_in_full : forall p o, gated p o = true -> auth p o = gated_bytes p o.
+Proof. exact gated_auth. Qed.
+Print Assumptions C20_gated_send_is_authorised_in_full.
+
+(** The pacer clause for the sender's OWN pacer, over every sender history: [pre] any history from
+    (new)CubicSender, then a send, then [rest] (all within op_rng). The pacer's datagram size is the
+    sender's, so [gated] is exactly "HasPacingBudget held and the packet is at most one datagram";
+    bandwidths are the sender's estimates at each send. *)
+Theorem C20_sender_pacer_bound_gated : forall m r0 icw imax srtt0 pre now pn bytes retr srtt rest,
+  0 < m <= 2^30 -> Forall op_rng pre -> op_rng (Sent now pn bytes retr srtt) -> Forall op_rng rest ->
+  let s := run (new_sender_w m r0 icw imax srtt0) pre in
+  let s1 := step s (Sent now pn bytes retr srtt) in
+  p_mds (pc s) = mds s /\
+  sum_gated (pc s) (sender_pops s (Sent now pn bytes retr srtt :: rest)) <=
+    max_burst (pc s) (bw_est s srtt) + sum_credit (pc s1) (sender_pops s1 rest).
+Proof. exact sender_pacer_bound_gated. Qed.
+Print Assumptions C20_sender_pacer_bound_gated.
+
+Example C20_const_rate_hypotheses_nonvacuous :
+  let p := new_pacer 800000000 in
+  let r := [PSent 2000 1280 800000000; PBudget 3000 800000000; PSent 1000000 1280 640000000] in
+  PInv p /\ PT p /\ pop_ok (PSent 1000 1280 800000000) /\ Forall pop_ok r /\ Forall (bw_below 800000000) r /\
+  mono (pstep p (PSent 1000 1280 800000000)) r /\
+  sum_gated p (PSent 1000 1280 800000000 :: r) = 3840.
+Proof. exact const_rate_hypotheses_example. Qed.
+Print Assumptions C20_const_rate_hypotheses_nonvacuous.
+
+(** [run] ignores the panicked flag of [step_full]; this theorem carries it: from (new)CubicSender with a
+    positive datagram size, in every history whose SetMaxDatagramSize arguments never decrease (what
+    connection.go guarantees, see notes) NO step panics — neither SetMaxDatagramSize's "congestion BUG"
+    panic nor a division by zero in TimeUntilSend — and maxDatagramSize stays positive in every
+    intermediate state, so cwnd / maxDatagramSize never divides by zero. *)
+Theorem C20_production_histories_never_panic : forall m r icw imax srtt0 ops, 0 < m -> mtu_nondecreasing m ops ->
+  let s0 := new_sender_w m r icw imax srtt0 in
+  any_panic s0 ops = false /\ 0 < mds (run s0 ops) /\
+  (forall pre post, ops = pre ++ post -> 0 < mds (run s0 pre)).
+Proof. exact production_histories_never_panic. Qed.
+Print Assumptions C20_production_histories_never_panic.
+
+Example C20_panic_flag_nonvacuous :
+  any_panic (new_sender 1280 true 100000000) [SetMDS 1452; SetMDS 1300] = true /\
+  mtu_nondecreasing 1280 [SetMDS 1452; Sent 5 0 100 true 7; SetMDS 1452] /\
+  any_panic (new_sender 1280 true 100000000) [SetMDS 1452; Sent 5 0 100 true 7; SetMDS 1452; QTimeUntil 0] = false.
+Proof. exact panic_example. Qed.
+Print Assumptions C20_panic_flag_nonvacuous.
+
+(** (d) with the REAL bytes in flight and the REAL window in one statement: for every state the
+    handler model reaches and every state the Reno sender model reaches by production events, the gate
+    fed with the handler's bytesInFlight, the sender's cwnd and the sender's pacer budget answers "any"
+    only if bytesInFlight (= sum of the tracked in-flight packets) < cwnd, with cwnd within its bounds and
+    the budget between one datagram and one burst; the next accepted packet stays below cwnd + its size.
+    It holds for every pair of states, hence for the pair a connection is in (the lock-step of the two
+    models with the code is checked by the spy cases of unit sendmode). *)
+Theorem C20_send_gate_composed : forall client validated ipn period maxPeriod rnd0 hops m0 srtt0 sops now srtt,
+  0 <= ipn -> 0 < m0 -> Forall (fun o => is_migrate o = false) sops ->
+  let st := V.SentPH.Model.run (V.SentPH.Model.init client validated ipn period maxPeriod rnd0) hops in
+  let s := run (new_sender m0 true srtt0) sops in
+  let hb := budget (pc s) now (bw_est s srtt) >=? mds s in
+  V.SentPH.Model.sendMode st (V.SentPH.Model.sBif st <? cwnd s) hb = sph_SendAny ->
+  V.SentPH.Model.sBif st < cwnd s /\
+  V.SentPH.Model.sBif st = V.SentPH.ProofsHist.msum V.SentPH.ProofsBase.f_incl (V.SentPH.ProofsBase.pk st V.SentPH.ProofsBase.SI)
+     + V.SentPH.ProofsHist.msum V.SentPH.ProofsBase.f_incl (V.SentPH.ProofsBase.pk st V.SentPH.ProofsBase.SH)
+     + V.SentPH.ProofsHist.msum V.SentPH.ProofsBase.f_incl (V.SentPH.ProofsBase.pk st V.SentPH.ProofsBase.SA) /\
+  cc_minCongestionWindowPackets * mds s <= cwnd s <= cc_maxCongestionWindowPackets * mds s + mds s /\
+  mds s <= budget (pc s) now (bw_est s srtt) <= max_burst (pc s) (bw_est s srtt) /\
+  V.SentPH.Model.isAmplificationLimited st = false /\ V.SentPH.Model.sProbes st <= 0 /\
+  (forall l t la sfs fs size mtu probe rnd orc,
+     V.SentPH.Model.op_valid st (V.SentPH.Model.OSend l t la sfs fs size mtu probe rnd) = true ->
+     V.SentPH.Model.sBif (fst (V.SentPH.Model.step st (V.SentPH.Model.OSend l t la sfs fs size mtu probe rnd, orc))) < cwnd s + size).
+Proof. exact V.Congestion.ProofsHandler.send_gate_composed. Qed.
+Print Assumptions C20_send_gate_composed.
